@@ -116,6 +116,10 @@ pub struct PBreak {
     pub duration: f64,
     pub loc: Option<usize>,
     pub tag: Option<String>,
+    /// write the window as offsets from the departure (needs start.latest == start.earliest)
+    pub offset: bool,
+    /// skip-if-no-intersection (default) | skip-if-arrival-before-end
+    pub policy: Option<String>,
 }
 
 #[derive(Clone, Debug)]
@@ -139,6 +143,8 @@ pub struct PShift {
     pub reloads: Vec<PReload>,
     /// required breaks with exact times: (earliest start, latest start, duration)
     pub required_breaks: Vec<(f64, f64, f64)>,
+    /// write the times of the required breaks as offsets from the departure (needs start.latest == start.earliest)
+    pub required_offset: bool,
 }
 
 #[derive(Clone, Debug, Default)]
@@ -291,7 +297,10 @@ impl PProblem {
                             so.insert("end".into(), json!({"latest": fmt_time(latest), "location": {"index": loc}}));
                         }
                         if !s.breaks.is_empty() || !s.required_breaks.is_empty() {
-                            let required = s.required_breaks.iter().map(|(e, l, d)| json!({"time": {"earliest": fmt_time(*e), "latest": fmt_time(*l)}, "duration": d}));
+                            let (offset, t0) = (s.required_offset, s.start_earliest);
+                            let required = s.required_breaks.iter().map(move |(e, l, d)| {
+                                if offset { json!({"time": {"earliest": e - t0, "latest": l - t0}, "duration": d}) } else { json!({"time": {"earliest": fmt_time(*e), "latest": fmt_time(*l)}, "duration": d}) }
+                            });
                             let breaks: Vec<Value> = s
                                 .breaks
                                 .iter()
@@ -304,7 +313,15 @@ impl PProblem {
                                     if let Some(t) = &b.tag {
                                         place.insert("tag".into(), json!(t));
                                     }
-                                    json!({"time": [fmt_time(b.time.0), fmt_time(b.time.1)], "places": [Value::Object(place)]})
+                                    let mut o = if b.offset {
+                                        json!({"time": [b.time.0 - s.start_earliest, b.time.1 - s.start_earliest], "places": [Value::Object(place)]})
+                                    } else {
+                                        json!({"time": [fmt_time(b.time.0), fmt_time(b.time.1)], "places": [Value::Object(place)]})
+                                    };
+                                    if let Some(p) = &b.policy {
+                                        o["policy"] = json!(p);
+                                    }
+                                    o
                                 })
                                 .chain(required)
                                 .collect();
